@@ -342,7 +342,7 @@ pub(in crate::sql) fn except(
         let Some((join_left, join_right)) = collect_equals(join_cond)? else {
             continue;
         };
-        if !all_in(&top, join_left) || !all_in(&bottom, join_right) {
+        if !pairs_by_position(&top, &bottom, join_left, join_right) {
             continue;
         }
 
@@ -436,7 +436,7 @@ pub(in crate::sql) fn intersect(
         let Some((left, right)) = collect_equals(join_cond)? else {
             continue;
         };
-        if !(all_in(&top, left) && all_in(&bottom, right)) {
+        if !pairs_by_position(&top, &bottom, left, right) {
             continue;
         }
 
@@ -496,6 +496,29 @@ pub(in crate::sql) fn intersect(
     }
 
     Ok(res)
+}
+
+/// Returns true if the equalities `lefts[i] == rights[i]` compare every column of `top`
+/// with the column at the same position of `bottom`, and nothing else.
+/// (Set operations match the columns of their operands by position.)
+fn pairs_by_position(top: &[CId], bottom: &[CId], lefts: Vec<&Expr>, rights: Vec<&Expr>) -> bool {
+    let mut paired = vec![false; top.len()];
+    for (left, right) in lefts.into_iter().zip(rights) {
+        let (Some(left), Some(right)) = (left.kind.as_column_ref(), right.kind.as_column_ref())
+        else {
+            return false;
+        };
+        let Some(position) = top.iter().position(|c| c == left) else {
+            return false;
+        };
+        if Some(position) != bottom.iter().position(|c| c == right) {
+            return false;
+        }
+        if let Some(seen) = paired.get_mut(position) {
+            *seen = true;
+        }
+    }
+    top.len() == bottom.len() && paired.into_iter().all(|p| p)
 }
 
 /// Returns true if all cids are in exprs
